@@ -104,12 +104,13 @@ func (e *Engine) callFunction(fn *ssa.Function, args []Value) Value {
 	e.depth++
 	e.curFn = append(e.curFn, fn)
 	e.curPos = append(e.curPos, nil)
-	defer func() {
-		e.depth--
-		e.curFn = e.curFn[:len(e.curFn)-1]
-		e.curPos = e.curPos[:len(e.curPos)-1]
-	}()
-	return e.runFrame(fr)
+	// no defer: when a path ends by panic the stacks stay as they were at the
+	// failing instruction so that the driver can report function and position
+	r := e.runFrame(fr)
+	e.depth--
+	e.curFn = e.curFn[:len(e.curFn)-1]
+	e.curPos = e.curPos[:len(e.curPos)-1]
+	return r
 }
 
 func (e *Engine) callClosure(f FuncV, args []Value) Value {
@@ -146,12 +147,11 @@ func (e *Engine) callClosure(f FuncV, args []Value) Value {
 	e.depth++
 	e.curFn = append(e.curFn, f.Fn)
 	e.curPos = append(e.curPos, nil)
-	defer func() {
-		e.depth--
-		e.curFn = e.curFn[:len(e.curFn)-1]
-		e.curPos = e.curPos[:len(e.curPos)-1]
-	}()
-	return e.runFrame(fr)
+	r := e.runFrame(fr)
+	e.depth--
+	e.curFn = e.curFn[:len(e.curFn)-1]
+	e.curPos = e.curPos[:len(e.curPos)-1]
+	return r
 }
 
 func (e *Engine) get(fr *frame, v ssa.Value) Value {
@@ -670,8 +670,14 @@ func (e *Engine) makeSlice(t types.Type, ln, cp *term.Term, lenType types.Type) 
 			lim := e.allocLim / esz
 			big := term.Cmp(term.OpUlt, term.Const(64, uint64(lim)), ln)
 			if e.fork([]*term.Term{term.Not(big), big}) == 1 {
+				// prefer a witness that is unmistakable when replayed natively
+				var extra []*term.Term
+				huge := term.Cmp(term.OpUlt, term.Const(64, 1<<26), ln)
+				if ok, sure := e.feasible(huge); ok && sure {
+					extra = append(extra, huge)
+				}
 				e.recordViolation("alloc", "allocation out of proportion", e.where(),
-					fmt.Sprintf("make([]%v, n) with n > %d feasible (element size %d)", elem, lim, esz))
+					fmt.Sprintf("make([]%v, n) with n > %d feasible (element size %d)", elem, lim, esz), extra...)
 				panic(pathEnd{kind: endAbandon})
 			}
 		}
